@@ -401,5 +401,12 @@ def batch_tie(run: Run, label, cases, req, impl, parse, compare, tol=1e-9):
             run.mismatch(f"{label}: {d}", c, strip_private(r), m)
     return out
 
+def record_tie(run: Run, label, d, case, impl=None, model=None):
+    """file the result of one model/implementation comparison made outside batch_tie: ambiguous, soft, or a mismatch"""
+    if not d: return
+    if d == "ambiguous": run.ambiguous += 1
+    elif d.startswith("soft:"): run.soft.append({"what": f"{label}: {d[5:]}", "case": case, "impl": impl, "model": model})
+    else: run.mismatch(f"{label}: {d}", case, impl, model)
+
 def strip_private(r):
     return {k: v for k, v in r.items() if not k.startswith("_")} if isinstance(r, dict) else r
